@@ -216,6 +216,8 @@ def small_store_case(prop, kind, lang, rnd, titles, target_title, extra=None):
         # the store held another catalogue before and was cleared (a smaller, an equal or a larger one)
         for j in range(rnd.choice([1, n, n + 3])):
             c.add(sid, 800 + j, rnd.choice(titles), rnd.randint(0, 1000))
+        if rnd.random() < 0.7:
+            c.search(sid, rnd.choice(titles).split(" ")[0][:3] or "a", rep=1)      # ... and it was in use
         c.op(op="clear", sid=sid)
     ratings = distinct_ratings(rnd, n) if rnd.random() < 0.7 else [rnd.randint(0, 3) for _ in range(n)]
     if crowd and rnd.random() < 0.6:
@@ -555,6 +557,12 @@ def gen_store_relations(prop, lang, rnd, titles, toks, ncases, big=False):
             n = len(recs)
         c = Case(prop, "relations", lang=lang)
         sid = c.new_store(lang)
+        if rnd.random() < 0.2:
+            # the store held another catalogue before (fewer, as many or more records), was searched, and was cleared
+            for j in range(rnd.choice([1, n, n + 3])):
+                c.add(sid, 800 + j, rnd.choice(titles), rnd.randint(0, 1000))
+            c.search(sid, rnd.choice(titles).split(" ")[0][:3] or "a", rep=1)
+            c.op(op="clear", sid=sid)
         rt = distinct_ratings(rnd, n, hi=2 ** 31 - 1 if rnd.random() < 0.2 else 1000)
         for i, t in enumerate(recs):
             c.add(sid, 100 + i, t, rt[i])
@@ -613,11 +621,11 @@ def gen_histories(prop, lang, rnd, titles, toks, ncases, length=14, adversarial=
         sid = c.new_store(lang, markers=(SENT_L, SENT_R) if rnd.random() < 0.7 else None)
         held = []
         nid = 1
-        # a second store of the same language lives on the same thread, holds other records and is asked the same inputs
+        # a second store (same or another language) lives on the same thread, holds other records and is asked the same inputs
         # right after the first (scratch state and anything remembered per thread is shared between stores)
         sid_b = None
         if rnd.random() < 0.3:
-            sid_b = c.new_store(lang, markers=(SENT_L, SENT_R))
+            sid_b = c.new_store(lang if rnd.random() < 0.4 else rnd.choice(LANGS), markers=(SENT_L, SENT_R))   # often another language
             for j in range(rnd.randint(1, 4)):
                 c.add(sid_b, 500 + j, rnd.choice(titles), rnd.randint(0, 1000))
         # three regimes: default limit; a small limit that the store soon exceeds; many records sharing a word
@@ -1176,6 +1184,30 @@ def gen_dl_cases(rnd, tier):
 COLLIDING = "".join(chr(x) for x in [0x74, 0xF4, 0x174, 0x10074, 0x73, 0xF3, 0x173, 0x10073, 0xD42C, 0x1D42C, 0x61, 0x161])
 
 
+def gen_wm_long_cases(rnd, tier):
+    """C16 at the call site: the real word_match on tokenised words around and beyond the matrix's initial capacity - a long
+    word against itself, its single edits, its rotations and its prefixes, finished and unfinished; what it reports for the
+    matched prefix pair is compared with their distance on an instance of its own"""
+    cases = []
+    n = 6 if tier == "quick" else 80
+    for k in range(n):
+        lang = LANGS[k % len(LANGS)]
+        letters = script_letters(lang)
+        c = Case("C16", "word-match-long", lang=lang)
+        for _w in range(4):
+            ln = rnd.choice([8, 15, 20, 21, 22, 26, 34])
+            w = rand_word(rnd, letters, ln, ln)
+            rot = w[ln // 2:] + w[:ln // 2]
+            i = rnd.randrange(1, ln - 1)
+            variants = [w, w[:i] + w[i + 1:], w[:i] + w[i + 1] + w[i] + w[i + 2:], rot, w[:ln - 3], "x" + w[:ln // 2], w[1:], w[:i] + rnd.choice(letters) + w[i:]]
+            for v in variants:
+                for q in (v, v + " "):
+                    c.op(op="wm", lang=lang, r=cps(w), q=cps(q), ri=0, qi=0)
+                c.op(op="wm", lang=lang, r=cps(v), q=cps(w), ri=0, qi=0)
+        cases.append(c)
+    return cases
+
+
 def gen_jac_cases(rnd, tier):
     """C17 / C19: all pairs of short sequences over three symbols, then random long ones (beyond the initial buffer
     capacity of 20) in random call orders, each also swapped, permuted and with repetitions"""
@@ -1460,6 +1492,10 @@ def gen_registry_cases(rnd, ncases, pools, toks, length=30):
         c = Case("C20", "registry")
         live = {}
         ids = [1, 2, 3, 7]
+        if rnd.random() < 0.3:
+            # ids from the whole range of usize: the harness maps logged ids 100..199 to (id - 100) + 2^32, so 101 and 107
+            # differ from 1 and 7 only above bit 31
+            ids = [1, 7, 101, 107]
         nrid = 1
         last_q = None
         if rnd.random() < 0.6:
@@ -1471,7 +1507,8 @@ def gen_registry_cases(rnd, ncases, pools, toks, length=30):
                 c.op(op="new", sid=1000 + i, lang=lg)
                 c.op(op="r_markers", id=i, l=SENT_L, r=SENT_R)
                 c.op(op="markers", sid=1000 + i, l=SENT_L, r=SENT_R)
-            shared_titles = [rnd.choice(pools[la]), rnd.choice(pools[lb]), rnd.choice(["Straße Größe", "université café", "running shoes", "ёлка мёд"])]
+            shared_titles = [rnd.choice(pools[la]), rnd.choice(pools[lb]), rnd.choice(["Straße Größe", "université café", "running shoes", "ёлка мёд"]),
+                             "old orange elephant under a cafe near us", "Öl Äpfel Übung école ñandú ça ёж"]
             for t in shared_titles:
                 for i in (1, 2):
                     c.op(op="r_add", id=i, rid=nrid, title=cps(t), rating=nrid)
@@ -1479,8 +1516,8 @@ def gen_registry_cases(rnd, ncases, pools, toks, length=30):
                     live[i]["titles"].append(t)
                 nrid += 1
             for t in shared_titles:
-                for w in t.split()[:2]:
-                    for q in (w, w[:max(1, len(w) - 1)], w + " "):
+                for w in t.split()[:2] + t.split()[2:][:5 if t.startswith("Öl") else 0]:
+                    for q in (w, w[:max(1, len(w) - 1)], w + " ", w[:1], w[:2]):
                         for i in (1, 2, 1):
                             c.search(1000 + i, q, tag="sa%d" % i, want=["qtok", "fresh"], rep=1)
                             c.op(op="r_search", id=i, q=cps(q))
@@ -1876,6 +1913,22 @@ def gen_long_word_cases(prop, lang, rnd, ncases):
         plan = [w[:rnd.randint(3, 12)], w[:rnd.randint(13, 20)], "x" + w[:6], w[:len(w) - 1], w, w + " ", w[:5] + " ", w[:4], w[1:15], w[:18] + "q"]
         if k % 3 == 0:
             rnd.shuffle(plan)
+        for q in plan:
+            c.search(sid, q)
+        cases.append(c)
+    # neighbours that only together exceed the initial capacity: every single word fits (at most 20 characters) while the
+    # joined pair the matcher also tries (record side and query side) does not; first searches of a never-grown thread
+    for k in range(ncases):
+        w20 = rand_word(rnd, letters, 17, 20)
+        w3 = rand_word(rnd, letters, 2, 4)
+        c = Case(prop, "long-joined", lang=lang)
+        sid = c.new_store(lang)
+        c.add(sid, 1, w3 + " " + w20, 1)
+        c.add(sid, 2, w20 + rnd.choice([" ", "-"]) + w3, 2)
+        c.add(sid, 3, w20, 3)
+        cut = rnd.randint(8, len(w20) - 3)
+        plan = ["x" + (w3 + w20)[:rnd.randint(6, 10)], w3 + w20, w20[:cut] + " " + w20[cut:], w20 + w3, (w3 + w20)[:19], w20[:cut] + " " + w20[cut:] + " "]
+        rnd.shuffle(plan)
         for q in plan:
             c.search(sid, q)
         cases.append(c)
